@@ -230,7 +230,7 @@ class YAMLTrace(Trace_):
             # sizes assume log_pitch never changes. is that safe?
             with open(os.path.join(self.location, self.active_logfile), "r", encoding='utf-8') as f:
                 activelog = yaml.safe_load(f)
-                self.active_logsize = len(activelog)
+                self.active_logsize = len(activelog) if activelog else 0
             self.logsize = self.log_pitch * (self.nlogs - 1) + self.active_logsize
 
     def files(self, absolute_path=True):
@@ -256,21 +256,28 @@ class YAMLTrace(Trace_):
             "weight": float(self.weight)
         }
 
-        with open(os.path.join(self.location, self.main_log), "w", encoding='utf-8') as f:
+        # write to a temporary file and rename, so that a crash never leaves a truncated main log
+        main_path = os.path.join(self.location, self.main_log)
+        with open(main_path + ".tmp", "w", encoding='utf-8') as f:
             yaml.safe_dump(out, f)
+        os.replace(main_path + ".tmp", main_path)
 
     def collect(self, snapshot: Any) -> None:
         """collect and optionally process data"""
         target_log = self.logsize // self.log_pitch
 
         if target_log != (self.nlogs - 1):  # for zero based index, target_log == nlogs means we're out of logs
+            # start the new page (with its first snapshot) before the main log names it,
+            # so that the files on disk are loadable after a crash at any point
             self.active_logfile = "{}-log_{:d}.yaml".format(self.unique_name, self.nlogs)
+            with open(os.path.join(self.location, self.active_logfile), "w", encoding='utf-8') as f:
+                yaml.safe_dump([snapshot], f, explicit_start=False)
             self.logfiles.append(self.active_logfile)
             self.nlogs += 1
             self.write_main_log()
-
-        with open(os.path.join(self.location, self.active_logfile), "a", encoding='utf-8') as f:
-            yaml.safe_dump([snapshot], f, explicit_start=False)
+        else:
+            with open(os.path.join(self.location, self.active_logfile), "a", encoding='utf-8') as f:
+                yaml.safe_dump([snapshot], f, explicit_start=False)
 
         self.logsize += 1
 
